@@ -279,7 +279,13 @@ def u_to_pvv(E):
     seen = {}
 
     def fake_pvv(E, args, kw):
-        seen['args'] = args
+        # normalise to the positional order (pin, pvv_key, key_index, card_number) whatever way the caller passes them
+        names = ['pin', 'pvv_key', 'key_index', 'card_number']
+        vals = list(args) + [None] * (4 - len(args))
+        for k2, v2 in kw.items():
+            if k2 in names:
+                vals[names.index(k2)] = v2
+        seen['args'] = vals
         return lift('1234')
     E.contracts[P + 'calculate_pvv'] = fake_pvv
     pin = digits(E, 'pin', 6)
@@ -288,17 +294,17 @@ def u_to_pvv(E):
     pb = E.instantiate(E.program.classes[P + 'Iso0TDESPinBlockWithVisaPVV'], [pin], {'card_number': pan})
     out = E.method(pb, 'to_pvv', key, key_index=VInt(3))
     a = seen.get('args')
-    ok = a is not None and len(a) == 4
-    E.prove('to_pvv/calls-calculate_pvv', z3.BoolVal(ok), 'P')
+    ok = a is not None and len(a) == 4 and all(x is not None for x in a)
+    E.prove('to_pvv/calls-calculate_pvv-with-pin-key-index-and-card-number', z3.BoolVal(ok), 'P')
     if ok:
         E.prove('to_pvv/passes-pin', z3.BoolVal(a[0] is pin or (isinstance(a[0], VSeq) and a[0].items == pin.items)), 'P')
         E.prove('to_pvv/passes-key', z3.BoolVal(a[1] is key), 'P')
-        E.prove('to_pvv/passes-index', E.as_int(a[2]) == 3, 'P')
+        E.prove('to_pvv/passes-index', z3.BoolVal(isinstance(a[2], VInt)) if not isinstance(a[2], VInt) else a[2].t == 3, 'P')
         E.prove('to_pvv/passes-own-card-number', z3.BoolVal(a[3] is pan), 'P')
     # format 4 block has no card number of its own: the parameter is used, and required
     pb4 = E.instantiate(E.program.classes[P + 'Iso4AESPinBlockWithVisaPVV'], [pin], {'random_value': VBV(z3.BitVecVal(5, 64))})
     E.method(pb4, 'to_pvv', key, card_number=pan)
-    E.prove('to_pvv/format4-uses-parameter', z3.BoolVal(seen['args'][3] is pan), 'P')
+    E.prove('to_pvv/format4-uses-parameter', z3.BoolVal(len(seen.get('args') or []) == 4 and seen['args'][3] is pan), 'P')
     try:
         E.method(pb4, 'to_pvv', key)
         E.prove('to_pvv/format4-requires-card-number', False, 'I')
@@ -321,8 +327,9 @@ def u_kcv(E):
         kt = BV.norm_key('TripleDES', BV.bytes_to_bv(keyb))
         out = E.call(K + 'calculate_kcv', keyb)
         expect_str(E, 'calculate_kcv=first-6-hex-of-E_k(zeros)[key=%d bytes]' % nbytes, out, kcv_chars(kt, 6))
-        out4 = E.call(K + 'calculate_kcv', keyb, VInt(4))
-        expect_str(E, 'calculate_kcv(len=4)[key=%d bytes]' % nbytes, out4, kcv_chars(kt, 4))
+        for n in (1, 3, 4, 5, 7, 8, 16):
+            outn = E.call(K + 'calculate_kcv', keyb, VInt(n))
+            expect_str(E, 'calculate_kcv(len=%d)[key=%d bytes]' % (n, nbytes), outn, kcv_chars(kt, n))
 
 
 def mk_zmk_unit(m):
